@@ -341,7 +341,10 @@ func c04SingleFault(c *Ctx) {
 	if c.W.Tier == "race" {
 		opts &^= flags.PrintErrors
 	}
-	cfg := c09Cfg()
+	cfg := c09CfgFor(fault)
+	if (fault == "help" || fault == "help-in-cluster") && opts&flags.HelpFlag == 0 {
+		opts |= flags.HelpFlag
+	}
 	cfg.ParserOpts = []flags.Options{opts}
 	cfg.PExec = 50
 	cfg.Types = append(append([]TypeSpec{}, cfg.Types...), TypeSpec{K: KInt8}, TypeSpec{K: KUint16, W: WSlice}, TypeSpec{K: KCelsius}, TypeSpec{K: KInt, W: WPtr}, TypeSpec{K: KInt, W: WFunc1}, TypeSpec{K: KString, W: WFunc1Err})
